@@ -30,12 +30,13 @@ enum OpCode
     O_ADVTO,
     O_SCAN,
     O_OBS, // size()/empty()/capacity() — always checked anyway; explicit op for thread programs
+    O_REP, // rep m n: repeat the previous m lookup operations n more times (long histories cheaply: wrapping counters)
     O_COUNT
 };
 inline const char* op_name(int o)
 {
     static const char* n[] = {"ins", "insr", "era", "erar", "find", "finduc", "findr", "findrf",
-                              "clean", "age", "uttl", "clear", "adv", "advto", "scan", "obs"};
+                              "clean", "age", "uttl", "clear", "adv", "advto", "scan", "obs", "rep"};
     return (o >= 0 && o < O_COUNT) ? n[o] : "?";
 }
 
@@ -59,6 +60,7 @@ struct Op
     int               j{0};       // advto: index of the pending deadline / idle boundary
     int               off{0};     // advto: -1, 0, +1 ns
     int               mode{0};    // scan: 0 live, 1 live+absent, 2 all (incl. expired)
+    bool              same{false}; // ins: write the value the key already holds (if it is live)
 };
 
 struct Case
@@ -111,6 +113,7 @@ inline void normalize(Case& c)
     auto& g = c.cfg;
     g.kind  = modi(g.kind, bx::K_COUNT);
     g.types = modi(g.types, 3);
+    g.kmode = modi(g.kmode, 3);
     g.cap   = static_cast<size_t>(clampi(static_cast<int64_t>(g.cap), 1, kMaxCap));
     if (!(g.mlf > 0.0f) || !(g.mlf < 1e9f))
         g.mlf = 1.0f;
@@ -135,7 +138,12 @@ inline std::string op_to_text(const Op& o)
     s << op_name(o.code);
     switch (o.code)
     {
-        case O_INS: s << " " << o.k << " " << o.allow << " " << o.ttl_ms; break;
+        case O_INS:
+            s << " " << o.k << " " << o.allow << " " << o.ttl_ms;
+            if (o.same)
+                s << " 1";
+            break;
+        case O_REP: s << " " << o.j << " " << o.ttl_ms; break;
         case O_INSR:
             s << " " << o.allow << " " << o.flavour << " " << o.elems.size();
             for (auto& e : o.elems)
@@ -179,6 +187,8 @@ inline std::string to_text(const Case& c)
     s << "tick " << g.tick_ms << "\n";
     s << "ratio " << g.ratio_num << " " << g.ratio_den << "\n";
     s << "seed " << g.seed << "\n";
+    if (g.kmode != 0)
+        s << "kmode " << g.kmode << "\n";
     s << "--\n";
     for (const auto& o : c.ops)
         s << op_to_text(o) << "\n";
@@ -208,7 +218,15 @@ inline bool op_from_line(const std::string& line, Op& out)
     int    p = 0;
     switch (code)
     {
-        case O_INS: ls >> o.k >> o.allow >> o.ttl_ms; break;
+        case O_INS:
+        {
+            ls >> o.k >> o.allow >> o.ttl_ms;
+            int sm = 0;
+            if (ls >> sm)
+                o.same = sm != 0;
+            break;
+        }
+        case O_REP: ls >> o.j >> o.ttl_ms; break;
         case O_INSR:
             ls >> o.allow >> o.flavour >> n;
             for (size_t i = 0; i < n && i < 400 && ls; ++i)
@@ -313,6 +331,8 @@ inline bool from_text(const std::string& text, Case& c)
                 ls >> c.cfg.ratio_num >> c.cfg.ratio_den;
             else if (w == "seed")
                 ls >> c.cfg.seed;
+            else if (w == "kmode")
+                ls >> c.cfg.kmode;
             continue;
         }
         Op o;
@@ -370,6 +390,7 @@ inline Case from_bytes(const uint8_t* data, size_t size, int forced_kind = -1)
     uint8_t b1 = r.u8();
     g.sync     = b1 & 1;
     g.types    = ((b1 >> 1) & 3) % 3;
+    g.kmode    = ((b1 >> 3) & 3) % 3;
     uint8_t b2 = r.u8();
     g.cap      = 1 + (b2 % 8);
     if (b2 >= 240)
@@ -401,6 +422,7 @@ inline Case from_bytes(const uint8_t* data, size_t size, int forced_kind = -1)
                 o.k      = a & 31;
                 o.allow  = 1 + ((a >> 5) % 3);
                 o.ttl_ms = ttl_from_byte(h >> 4);
+                o.same   = ((a >> 5) & 3) == 3;
                 break;
             case O_INSR:
             case O_ERAR:
@@ -431,6 +453,13 @@ inline Case from_bytes(const uint8_t* data, size_t size, int forced_kind = -1)
                 o.off = static_cast<int>((a >> 4) % 3) - 1;
                 break;
             case O_SCAN: o.mode = a % 3; break;
+            case O_REP:
+            {
+                static const int64_t reps[] = {2, 3, 127, 128, 254, 255, 256, 257, 510, 65535, 65536, 5};
+                o.j      = 1 + (a & 3);
+                o.ttl_ms = reps[(a >> 2) % 12];
+                break;
+            }
             default: break;
         }
         c.ops.push_back(std::move(o));
@@ -444,7 +473,7 @@ inline std::vector<uint8_t> to_bytes(const Case& c)
     std::vector<uint8_t> b;
     const auto&          g = c.cfg;
     b.push_back(static_cast<uint8_t>(g.kind));
-    b.push_back(static_cast<uint8_t>((g.sync ? 1 : 0) | ((g.types % 3) << 1)));
+    b.push_back(static_cast<uint8_t>((g.sync ? 1 : 0) | ((g.types % 3) << 1) | ((g.kmode % 3) << 3)));
     b.push_back(static_cast<uint8_t>(g.cap >= 1 && g.cap <= 8 ? g.cap - 1 : (g.cap == 33 ? 241 : 240)));
     int extra = c.uni - static_cast<int>(g.cap) - 1;
     b.push_back(static_cast<uint8_t>(extra < 0 ? 0 : extra > 2 ? 2 : extra));
